@@ -252,7 +252,7 @@ def judge(op, ref, outcome, out_bytes, stray):
     if out_bytes is None:
       return ("no-output-file-after-success", "argv=%s" % build_argv(op))
     if out_bytes != ref[1]:
-      return ("output-differs-from-library-pipeline:" + (focus if any(f in focus for f in ("file-beats-inline", "document_lang", "beats-extension", "ext-case")) else "bytes"),
+      return ("output-differs-from-library-pipeline",
               "argv=%s\ncli    =%r\nlibrary=%r" % (build_argv(op), out_bytes[:600], ref[1][:600]))
     return None
   if ref[0] == "error":
